@@ -43,10 +43,11 @@ type Params struct {
 
 // VBlock is one block of the virtual counterparty's block tree.
 type VBlock struct {
-	I, V   int // height index, variant (0 = canonical "a", 1 = alternative "b")
-	Height clienttypes.Height
-	TimeNs int64
-	Store  *VStore
+	I, V     int // height index, variant (0 = canonical "a", 1 = alternative "b", 2 = "c": other next validators)
+	Height   clienttypes.Height
+	TimeNs   int64
+	Store    *VStore
+	NextVals []byte // NextValidatorsHash of the header
 }
 
 // VChain is the virtual counterparty: a tree of properly signed alternative blocks.
@@ -54,6 +55,7 @@ type VChain struct {
 	P       Params
 	ChainID string
 	Vals    *ksim.ValSet
+	Other   *ksim.ValSet // a second deterministic validator set (only ever announced as "next validators")
 	blocks  map[[2]int]*VBlock
 	hdr     map[[2]int][]byte // marshalled signed ibctm.Header (trusted height filled in per use)
 	Packet  channeltypes.Packet
@@ -84,6 +86,9 @@ func (c *VChain) Variants(i int) []int {
 	if i == 1 || i == 8 {
 		return []int{0}
 	}
+	if i == 3 {
+		return []int{0, 1, 2}
+	}
 	return []int{0, 1}
 }
 
@@ -91,11 +96,13 @@ func sec(s int64) int64 { return s * int64(time.Second) }
 
 // timeOf is the block time table. Canonical blocks are 10 s apart, block 1 is 50 s old in the root
 // world (so that trusting/2 reaches its expiry exactly); alternative blocks carry a different app hash
-// and/or a time that is equal to / later than / earlier than the canonical neighbours.
+// and/or a time that is equal to / later than / earlier than the canonical neighbours. Every field of the
+// stored consensus state has a variant differing from the canonical block in that field only: root (2b, 7b),
+// timestamp (6b), next validators hash (3c).
 func timeOf(i, v int) int64 {
 	a := func(i int) int64 { return Now0 + sec(-60+10*int64(i)) }
-	if v == 0 {
-		return a(i)
+	if v == 0 || v == 2 {
+		return a(i) // variant c: same time and same app hash as the canonical block, other next validators
 	}
 	switch i {
 	case 2:
@@ -119,6 +126,9 @@ func contentTag(i, v int) string {
 	if i == 6 {
 		return "6-0"
 	}
+	if v == 2 {
+		return fmt.Sprintf("%d-0", i)
+	}
 	return fmt.Sprintf("%d-%d", i, v)
 }
 
@@ -134,6 +144,7 @@ func VValue(i, v int) []byte { return []byte("value-" + contentTag(i, v)) }
 func buildVChain(p Params) *VChain {
 	c := &VChain{P: p, ChainID: fmt.Sprintf("virt-%d", p.Rev), blocks: map[[2]int]*VBlock{}, hdr: map[[2]int][]byte{}}
 	c.Vals = ksim.NewValSetPowers("tmworld-val", []int64{10})
+	c.Other = ksim.NewValSetPowers("tmworld-other-val", []int64{7, 5})
 	// a packet the virtual chain "sent" to chain A over the fixture channel (for the receive use op)
 	c.Packet = channeltypes.NewPacket(ibcmock.MockPacketData, 1, "mock", "channel-0", "mock", "channel-0", clienttypes.NewHeight(1, 1_000_000), 0)
 	pcKey := string(host.PacketCommitmentKey("mock", "channel-0", 1))
@@ -149,9 +160,13 @@ func buildVChain(p Params) *VChain {
 				}, [][2]string{{"ibc", VKey}, {"ibc", VAbsentKey}, {"ibc", pcKey}})
 				stores[tag] = st
 			}
-			b := &VBlock{I: i, V: v, Height: clienttypes.NewHeight(p.Rev, p.Base+uint64(i)), TimeNs: timeOf(i, v), Store: st}
+			next := c.Vals.Set
+			if v == 2 {
+				next = c.Other.Set
+			}
+			b := &VBlock{I: i, V: v, Height: clienttypes.NewHeight(p.Rev, p.Base+uint64(i)), TimeNs: timeOf(i, v), Store: st, NextVals: next.Hash()}
 			c.blocks[[2]int{i, v}] = b
-			raw := RawHeader(c.ChainID, int64(b.Height.RevisionHeight), b.TimeNs, st.AppHash, c.Vals.Set, c.Vals.Set)
+			raw := RawHeader(c.ChainID, int64(b.Height.RevisionHeight), b.TimeNs, st.AppHash, c.Vals.Set, next)
 			h, err := ksim.SignHeader(raw, c.Vals, clienttypes.NewHeight(p.Rev, 1), c.Vals.Set)
 			if err != nil {
 				panic(err)
@@ -218,13 +233,13 @@ func (c *VChain) Header(i, v, ti int) *ibctm.Header {
 // Cons is the consensus state header (i, v) yields.
 func (c *VChain) Cons(i, v int) *ibctm.ConsensusState {
 	b := c.Block(i, v)
-	return ibctm.NewConsensusState(time.Unix(0, b.TimeNs).UTC(), commitmenttypes.NewMerkleRoot(b.Store.AppHash), c.Vals.Set.Hash())
+	return ibctm.NewConsensusState(time.Unix(0, b.TimeNs).UTC(), commitmenttypes.NewMerkleRoot(b.Store.AppHash), b.NextVals)
 }
 
 // SameCons reports whether two variants of height index i yield the same consensus state.
 func (c *VChain) SameCons(i, v1, v2 int) bool {
 	a, b := c.Block(i, v1), c.Block(i, v2)
-	return a.TimeNs == b.TimeNs && string(a.Store.AppHash) == string(b.Store.AppHash)
+	return a.TimeNs == b.TimeNs && string(a.Store.AppHash) == string(b.Store.AppHash) && string(a.NextVals) == string(b.NextVals)
 }
 
 // ClientState builds a client state of the virtual chain at height index i.
